@@ -13,7 +13,7 @@ import json
 import os
 from typing import Any
 
-from sim import histsim, kit, project, runner
+from sim import corpus, histsim, kit, project, runner
 
 PROP = "C02"
 SOFT = ("only_once_note", "partial_output_before_blocker")  # known classes: keep looking for others
@@ -101,6 +101,8 @@ def minimise(scn: dict[str, Any], viol: dict[str, Any]) -> dict[str, Any]:
         steps = scn["steps"]
     scn = dict(scn, steps=[dict(st) for st in steps])
     scn["steps"][-1]["run"] = True
+    if "project" not in scn:
+        return scn  # corpus-derived history: steps are already whole-file operations
     # then edits inside steps
     flat = [(i, j) for i, st in enumerate(scn["steps"]) for j in range(len(st["edits"]))]
 
@@ -142,9 +144,44 @@ def gen(k: int, tier: str, stall: bool = False) -> dict[str, Any]:
     return scn
 
 
+_inc_cases: list[dict[str, Any]] | None = None
+
+
+def inc_cases() -> list[dict[str, Any]]:
+    global _inc_cases
+    if _inc_cases is None:
+        out = []
+        for fn in ("check-incremental.test", "check-serialize.test", "check-modules.test", "check-modules-case.test", "check-modules-fast.test"):
+            try:
+                cs = corpus.load_file(fn)
+            except OSError:
+                continue
+            for c in cs:
+                if corpus.usable(c) and len(c["steps"]) >= 2 and all(f is None for f in c["flags"][1:]) and all(a is None for a in c["argv"][1:]):
+                    out.append(c)
+        _inc_cases = out
+    return _inc_cases
+
+
+def corpus_family_size() -> int:
+    return len(inc_cases()) * len(corpus.TRANSFORMS)
+
+
+def gen_corpus(k: int, tier: str) -> dict[str, Any]:
+    """Member k of the finite family (incremental corpus case x history transform)."""
+    cases = inc_cases()
+    idx = k if tier == "thorough" else kit.rng_for(PROP, "corpus", k).randrange(corpus_family_size())
+    c = cases[idx % len(cases)]
+    tr = corpus.TRANSFORMS[(idx // len(cases)) % len(corpus.TRANSFORMS)]
+    files0, steps = corpus.transform_history(c, tr, kit.rng_for(PROP, "corpus-tr", idx))
+    cfg = dict(histsim.STORE_CONFIGS[idx % len(histsim.STORE_CONFIGS)])
+    cfg["extra_flags"] = corpus.step_flags(c, 0)
+    return {"files": files0, "argv": corpus.step_argv(c, 0), "config": cfg, "steps": steps, "case": c["file"] + "::" + c["name"], "transform": tr, "member": idx}
+
+
 def task(item: tuple[str, int, str]) -> dict[str, Any]:
     fam, k, tier = item
-    scn = gen(k, tier, stall=(fam == "stall"))
+    scn = gen_corpus(k, tier) if fam == "corpus" else gen(k, tier, stall=(fam == "stall"))
     r = evaluate(scn, f"{fam}{k}")
     st = r["stats"]
     out: dict[str, Any] = {
@@ -157,8 +194,12 @@ def task(item: tuple[str, int, str]) -> dict[str, Any]:
         "nontrivial": [kit.digest(scn)] if st["partial"] else [],
         "interleavings": [],
     }
-    if k < 2:
+    if fam == "corpus":
+        out["faults"] = {"transform_" + scn["transform"]: 1}
+    if k < 2 and fam != "corpus":
         out["sample"] = {"config": scn["config"], "steps": scn["steps"][:3], "modules": sorted(scn["project"]["mods"])}
+    elif k < 1:
+        out["sample"] = {"case": scn["case"], "transform": scn["transform"], "config": scn["config"], "steps": [[e["e"] + ":" + e.get("path", "") for e in st["edits"]] for st in scn["steps"]]}
     if r["violation"] is not None:
         v = r["violation"]
         if v["kind"] == "warm_differs" and swallowed_blocker_signature(v):
@@ -210,7 +251,11 @@ def run(tier: str) -> int:
     ]
     n = 120 if tier == "quick" else 4000
     n_stall = 24 if tier == "quick" else 600
-    items = [("hist", k, tier) for k in range(n)] + [("stall", k, tier) for k in range(n_stall)]
+    n_corpus = 150 if tier == "quick" else corpus_family_size()
+    items = [("hist", k, tier) for k in range(n)] + [("stall", k, tier) for k in range(n_stall)] + [("corpus", k, tier) for k in range(n_corpus)]
+    only = os.environ.get("VERIF_C02_FAMILY")
+    if only:
+        items = [it for it in items if it[0] == only]
     known = kit.load_known_findings(PROP)
     results, skipped = kit.run_pool(task, items, budget_s=600 if tier == "quick" else 3 * 3600)
     results.sort(key=lambda r: (r["family"], r["k"]))
@@ -219,7 +264,10 @@ def run(tier: str) -> int:
         rep.add_result(r)
         if "violation" in r:
             v = r["violation"]
-            by_class.setdefault(v["family"] + ":" + vclass(v["violation"]), []).append(v)
+            key = v["family"] + ":" + vclass(v["violation"])
+            if v["family"] == "corpus" and v["violation"]["kind"] not in SOFT:
+                key += ":" + v["scenario"]["case"] + ":" + v["scenario"]["transform"]
+            by_class.setdefault(key, []).append(v)
     unknown = []
     for cls, vs in sorted(by_class.items()):
         e = match_known(cls, vs[0], known)
@@ -239,9 +287,13 @@ def run(tier: str) -> int:
 
 
 def match_known(cls: str, v: dict[str, Any], known: list[dict[str, Any]]) -> dict[str, Any] | None:
-    fam, kind = cls.split(":", 1)
+    fam, kind = cls.split(":", 2)[:2]
     for e in known:
         m = e.get("match", {})
+        if "case" in m:
+            if fam == "corpus" and v["scenario"].get("case") == m["case"] and v["scenario"].get("transform") in m.get("transforms", []):
+                return e
+            continue
         if m.get("kind") == kind and m.get("family", fam) == fam:
             return e
     return None
